@@ -823,7 +823,11 @@ func doWriteF(dataSpec, readerSpec string, n int, sels []failSel) (fr faultResul
 	if tree == "" {
 		tree = "-"
 	}
-	fr.out = fmt.Sprintf("ok %d %s", n, tree)
+	size := int64(-1)
+	if r, err := schema.NewFileReader(ctxbg, sto, br); err == nil {
+		size = r.Size()
+	}
+	fr.out = fmt.Sprintf("ok %d %s", size, tree)
 	return fr, true
 }
 
@@ -1379,6 +1383,164 @@ func (g *gen) writerCase(wc writeCase) {
 	}
 }
 
+// faultBase: one file written again and again through a blob server that refuses selected blobs: every
+// position in turn, at once and after the source reported EOF, alone and several together.
+func (g *gen) faultBase(kind, reader string, n int) {
+	r := g.r
+	dataSpec := fmt.Sprintf("%s:%d", kind, r.R.Intn(1_000_000))
+	dry, ok := doWrite(dataSpec, reader, n, nil)
+	if !ok || !strings.HasPrefix(dry.out, "ok ") {
+		panic("bad fault base " + dataSpec)
+	}
+	eof := "-"
+	if dry.eofFrom >= 0 {
+		eof = strconv.Itoa(dry.eofFrom)
+	}
+	prefix := fmt.Sprintf("chunksf %s %s %d %s %s ", dataSpec, reader, n, eof, realSplits(dry.data))
+	short := fmt.Sprintf("chunksf %s %s %d %s <splits> ", dataSpec, reader, n, eof)
+	nc, nb := len(dry.chunkRefs), len(dry.bytesRefs)
+	var sels []string
+	both := func(s string) { sels = append(sels, s, s+"d") }
+	var cpos []int
+	if r.Thorough() || nc <= 4 {
+		for i := 0; i < nc; i++ {
+			cpos = append(cpos, i)
+		}
+	} else {
+		cpos = []int{0, 1 + r.R.Intn(nc-2), nc - 2, nc - 1}
+	}
+	for _, i := range cpos {
+		both(fmt.Sprintf("c%d", i))
+	}
+	for j := 0; j < nb; j++ {
+		if r.Thorough() || j < 2 || j == nb-1 {
+			both(fmt.Sprintf("y%d", j))
+		}
+	}
+	both("f")
+	for k := 0; k < 4; k++ { // several at once, mixed timing
+		var items []string
+		for m := 2 + r.R.Intn(3); m > 0; m-- {
+			var it string
+			switch x := r.R.Intn(10); {
+			case x < 6 && nc > 0:
+				it = fmt.Sprintf("c%d", r.R.Intn(nc))
+			case x < 8 && nb > 0:
+				it = fmt.Sprintf("y%d", r.R.Intn(nb))
+			default:
+				it = "f"
+			}
+			if r.R.Bool() {
+				it += "d"
+			}
+			items = append(items, it)
+		}
+		sels = append(sels, strings.Join(items, ","))
+	}
+	sels = append(sels, "-", fmt.Sprintf("c%d", nc), fmt.Sprintf("y%dd", nb))
+	for _, sel := range sels {
+		fs, _ := parseFails(sel)
+		res, ok := doWriteF(dataSpec, reader, n, fs)
+		if !ok {
+			panic("bad fault case " + short + sel)
+		}
+		line := prefix + sel
+		r.Op(line, res.out)
+		r.Distinct(fmt.Sprintf("fault:%s:%s:%d:%s", kind, reader, n, sel))
+		// the property: an error, or everything the returned ref references is stored and reads back
+		if res.err == nil {
+			missing := allStored(res.sto.Storage, res.ref)
+			var back []byte
+			var rerr error
+			if fr, err := schema.NewFileReader(ctxbg, res.sto, res.ref); err == nil {
+				back, rerr = io.ReadAll(fr)
+			} else {
+				rerr = err
+			}
+			if missing != "" || rerr != nil || !bytes.Equal(back, dry.data) {
+				r.Fail("write-success-but-blob-not-stored", fmt.Sprintf("%s%s: WriteFileFromReader returned %v without error; %d receives were refused; missing blob %q; read back %d of %d bytes (err %v)",
+					short, sel, res.ref, res.injected, missing, len(back), n, rerr), "error, or all referenced blobs stored", res.out, []string{line})
+			}
+			if res.effective == 0 {
+				r.Hit("fault:none-selected-write-succeeds")
+			}
+		} else {
+			r.Hit("fault:write-returned-error")
+			if res.effective == 0 {
+				r.Fail("write-error-without-refusal", short+sel+": "+res.err.Error(), "ok", "err", []string{line})
+			}
+		}
+		if len(fs) > 1 && res.effective > 1 {
+			r.Hit("fault:multiple")
+		}
+		for _, f := range fs {
+			var key string
+			switch {
+			case f.kind == 'c' && f.idx >= nc, f.kind == 'y' && f.idx >= nb:
+				key = "fault:out-of-range(no-such-blob)"
+			case f.kind == 'c' && f.idx == nc-1:
+				key = "fault:chunk-last"
+			case f.kind == 'c' && f.idx == 0:
+				key = "fault:chunk-first"
+			case f.kind == 'c':
+				key = "fault:chunk-middle"
+			case f.kind == 'y':
+				key = "fault:bytes-schema-blob"
+			default:
+				key = "fault:file-blob"
+			}
+			r.Hit(key)
+			if f.delayed {
+				r.Hit("fault:delayed-until-after-source-EOF")
+			} else {
+				r.Hit("fault:immediate")
+			}
+		}
+		// the exported WriteFileChunks (does not upload the file blob) under the same refusals
+		hasFile := false
+		for _, f := range fs {
+			hasFile = hasFile || f.kind == 'f'
+		}
+		if !hasFile && len(fs) > 0 {
+			g.writeFileChunksUnderFaults(dry, reader, fs, short+sel)
+		}
+	}
+	r.Sample(map[string]any{"kind": "upload-failure", "op": short + sels[len(sels)/2], "chunks": nc, "bytes_blobs": nb})
+}
+
+func (g *gen) writeFileChunksUnderFaults(dry writeResult, reader string, fs []failSel, what string) {
+	r := g.r
+	fail := map[blob.Ref]bool{}
+	eff := 0
+	for _, f := range fs {
+		switch {
+		case f.kind == 'c' && f.idx < len(dry.chunkRefs):
+			fail[dry.chunkRefs[f.idx]] = f.delayed
+			eff++
+		case f.kind == 'y' && f.idx < len(dry.bytesRefs):
+			fail[dry.bytesRefs[f.idx]] = f.delayed
+			eff++
+		}
+	}
+	rd, _ := newFragReader(reader, dry.data)
+	sto := &faultStore{Storage: &memory.Storage{}, fail: fail, eofc: rd.eofc}
+	file := schema.NewFileMap("f")
+	err := schema.WriteFileChunks(ctxbg, sto, file, rd)
+	r.ImplOnly("writefilechunks-under-refusals")
+	if err != nil {
+		if eff == 0 {
+			r.Fail("writefilechunks-error-without-refusal", what+": "+err.Error(), "ok", "err", nil)
+		}
+		return
+	}
+	fb := file.Blob()
+	put(sto.Storage, []byte(fb.JSON()))
+	if m := allStored(sto.Storage, fb.BlobRef()); m != "" {
+		r.Fail("writefilechunks-success-but-blob-not-stored", fmt.Sprintf("%s: WriteFileChunks returned nil, the populated parts reference %s which is not stored", what, m),
+			"error, or all referenced blobs stored", "nil", nil)
+	}
+}
+
 // splitStats classifies every position at which the real rollsum reported a split.
 func (g *gen) splitStats(res writeResult) {
 	r := g.r
@@ -1461,7 +1623,7 @@ func Run(r *hk.Run) {
 	// neighbouring seeds would generate almost the same cases: re-seed from a mixed output.
 	r.R = hk.NewRand(r.R.U64() ^ 0xC15C15C15)
 	rnd := r.R
-	r.Res.Rule = "cases: (a) WriteFileFromReader for lengths around 0/1/64KiB/256KiB/1MiB(+multiples) x content kinds (zero, const, random, rollsum-dense windows, mixed) x reader fragmentations (plain, 1-byte, short reads, data+EOF); (b) generated part trees (depth<=3, offsets, sub-ranges, holes, nested bytes; some ill-formed) x every (off,len) through ReadAt, Seek+Read, ForeachChunk; (c) static sets for limit M in 3..10 and the shipped limit, member counts around M, M^2, M^3. distinct = distinct (content kind, reader, length) writes + distinct trees + distinct (M, count); non-trivial = a write of >= 1 byte, a tree with >= 1 part, a set with > M members"
+	r.Res.Rule = "cases: (a) WriteFileFromReader for lengths around 0/1/64KiB/256KiB/1MiB(+multiples) x content kinds (zero, const, random, rollsum-dense windows, mixed) x reader fragmentations (plain, 1-byte, short reads, data+EOF); (b) generated part trees (depth<=3, offsets, sub-ranges, holes, nested bytes; some ill-formed) x every (off,len) through ReadAt, Seek+Read, ForeachChunk; (a') the same writes through a blob server whose ReceiveBlob refuses selected blobs: each chunk position (first, middle, last), each bytes schema blob, the file blob, immediately and delayed until after the source reported EOF, single and several, also through WriteFileChunks; (c) static sets for limit M in 3..10 and the shipped limit, member counts around M, M^2, M^3. distinct = distinct (content kind, reader, length) writes + distinct trees + distinct (M, count); non-trivial = a write of >= 1 byte, a tree with >= 1 part, a set with > M members"
 
 	// ---- (a) writer ----
 	const K = 1 << 10
@@ -1508,6 +1670,34 @@ func Run(r *hk.Run) {
 		}
 		rs := readers()
 		g.writerCase(writeCase{kinds[rnd.Intn(len(kinds))], rs[rnd.Intn(len(rs))], n})
+	}
+
+	// ---- (a') writer over a blob server that refuses blobs ----
+	r.Case("writer-upload-failures")
+	type fb struct {
+		kind, reader string
+		n            int
+	}
+	sd := rnd.Intn(1_000_000)
+	bases := []fb{
+		{"dense3", "p", 700*K + 123},
+		{"dense3", fmt.Sprintf("f%d:70000:1", sd), 1500 * K},
+		{"mixed", fmt.Sprintf("f%d:5000:0", sd), 1200*K + 7},
+		{"rand", "p", 300 * K},
+		{"zero", fmt.Sprintf("f%d:16777216:1", sd), 2300 * K},
+		{"rand", fmt.Sprintf("f%d:1:1", sd), 100},
+		{"rand", "p", 0},
+	}
+	nMore := 3
+	if r.Thorough() {
+		nMore = 40
+	}
+	for i := 0; i < nMore; i++ {
+		rs := readers()
+		bases = append(bases, fb{[]string{"dense3", "mixed", "dense", "rand"}[rnd.Intn(4)], rs[rnd.Intn(len(rs))], 1 + rnd.Intn(2600*K)})
+	}
+	for _, b := range bases {
+		g.faultBase(b.kind, b.reader, b.n)
 	}
 
 	// ---- (b) reader ----
@@ -1582,7 +1772,7 @@ func Run(r *hk.Run) {
 	for _, l := range []string{"", "tree", "tree h", "tree h3,", "tree b61:0", "tree b6:0:1", "tree B61:0:1", "tree n0:1[h1", "tree n0:1[h1,]",
 		"tree h1,,h1", "tree h1]", "tree h1234567890123", "readat", "readat 1", "readat -1 2", "readat 1 x", "readat 0 16777217", "readat 1_0 1",
 		"seekread 1", "foreach 1", "chunks", "chunks rand:1 p 10 - 11:13", "chunks rand:1 p 10 - 5:13,5:14", "chunks rand:1 p 10 x -",
-		"chunks rand:1 p 10 - 5", "chunks rand:1 p 67108865 - -", "sset", "sset 3", "sset 3 x", "sset 3 262145", "frobnicate 1 2", "tree h2", "readat 0 2"} {
+		"chunks rand:1 p 10 - 5", "chunks rand:1 p 67108865 - -", "chunksf rand:1 p 10 - - c", "chunksf rand:1 p 10 - - c0,,f", "chunksf rand:1 p 10 - - c0,c1,c2,c3,c4,c5,c6,c7,c8", "chunksf rand:1 p 10 - - z1", "chunksf rand:1 p 10 - -", "sset", "sset 3", "sset 3 x", "sset 3 262145", "frobnicate 1 2", "tree h2", "readat 0 2"} {
 		g.op(l)
 	}
 
